@@ -14,38 +14,47 @@ class Pat:
     def __init__(self, rust, sexpr, binds=()):
         self.rust, self.sexpr, self.binds = rust, sexpr, tuple(binds)
 
-def pat_n(rng, pos, depth=0, allow_bind=True):
+CONSTS = ['ka::A', 'ka::B', 'kb::A', 'kb::B']     # harness/src/bin/matchers.rs: ka::{A = 0, B = 1}, kb::{A = 2, B = 3} — same names, different values
+
+def lit(rng, c, top):
+    """the literal c; at an argument's own position one time in five spelled as the path of a constant with that value
+    (a path pattern is matched against the `&u8` as it is, hence the `&`; literals are dereferenced by rustc itself)"""
+    return Pat('&' + CONSTS[c] if top and rng.chance(1, 5) else str(c), f"l{c}")
+
+def pat_n(rng, pos, depth=0, allow_bind=True, top=True):
     k = rng.below(9 if depth == 0 else 6)
     if k == 0:
-        c = rng.below(4); return Pat(str(c), f"l{c}")
+        return lit(rng, rng.below(4), top)
     if k == 1:
-        a = rng.below(3); b = a + rng.below(3); return Pat(f"{a}..={b}", f"r{a}-{b}")
+        a = rng.below(3); b = a + rng.below(3)
+        if top and rng.chance(1, 5):
+            return Pat(f"&({CONSTS[a]}..={CONSTS[min(b, 3)]})", f"r{a}-{min(b, 3)}")
+        return Pat(f"{a}..={b}", f"r{a}-{b}")
     if k == 2:
         return Pat('_', 'w')
     if k == 3 and allow_bind:
         return Pat(f"x{pos}", f"b{pos}", [pos])
     if k == 4 and allow_bind and depth == 0:
-        inner = pat_n(rng, pos, 1, False)
+        inner = pat_n(rng, pos, 1, False, top)
         if '|' in inner.rust:
             return Pat(f"x{pos} @ ({inner.rust})", f"a{pos}({inner.sexpr})", [pos])
         return Pat(f"x{pos} @ {inner.rust}", f"a{pos}({inner.sexpr})", [pos])
     if k == 5 and depth == 0:
         n = 2 + rng.below(2)
-        parts = [pat_n(rng, pos, 1, False) for _ in range(n)]
+        parts = [pat_n(rng, pos, 1, False, top) for _ in range(n)]
         parts = [p for p in parts if '|' not in p.rust]
         if len(parts) >= 2:
             return Pat(' | '.join(p.rust for p in parts), 'o[' + ','.join(p.sexpr for p in parts) + ']')
-    c = rng.below(4)
-    return Pat(str(c), f"l{c}")
+    return lit(rng, rng.below(4), top)
 
 def pat_o(rng, pos):
     k = rng.below(6)
     if k == 0: return Pat('None', 'N')
     if k == 1: return Pat('_', 'w')
     if k == 2:
-        a = Pat('None', 'N'); b = pat_n(rng, pos, 1, False)
+        a = Pat('None', 'N'); b = pat_n(rng, pos, 1, False, False)
         return Pat(f"None | Some({b.rust})", f"o[N,S({b.sexpr})]")
-    inner = pat_n(rng, pos, 1, True)
+    inner = pat_n(rng, pos, 1, True, False)
     return Pat(f"Some({inner.rust})", f"S({inner.sexpr})", inner.binds)
 
 def str_sexpr(s):
@@ -62,7 +71,7 @@ def pat_s(rng, pos):
 
 def pat_l(rng, pos):
     k = rng.below(7)
-    el = lambda: pat_n(rng, pos, 1, False)
+    el = lambda: pat_n(rng, pos, 1, False, False)
     if k == 0: return Pat('_', 'w')
     if k == 1: return Pat('[]', 'e[]')
     if k == 2:
@@ -226,7 +235,7 @@ fn case_{c.ident}() {{
     {loops}
         let u = Unimock::new(MTMock::{c.method}.each_call(matching!({mt})).returns(1u32)).no_verify_in_drop();
         un.push(if accepts(|| u.{c.method}({conv[0]})).0 {{ '1' }} else {{ '0' }});
-        let o = Unimock::new(MTMock::{c.method}.next_call(matching!({mt})).returns(1u32).n_times(1)).no_verify_in_drop();
+        let o = Unimock::new((MTMock::{c.method}.next_call(matching!({mt})).returns(1u32).n_times(1), MTMock::{c.method}.next_call(matching!({mt})).returns(2u32).n_times(1))).no_verify_in_drop();      // a second ordered pattern of the same method stays out of the first call's mismatch report
         let (ok, msg) = accepts(|| o.{c.method}({conv[0]}));
         ord.push(if ok {{ '1' }} else {{ '0' }});
         diag.push(if ok {{ "-".to_string() }} else {{ positions(&msg) }});
@@ -269,6 +278,14 @@ def gen_cases(seed, n):
     for (a1, b1, a2, b2) in [(0, 2, 1, 0), (2, 0, 0, 1), (0, 0, 2, 2), (3, 2, 0, 0), (0, 1, 3, 0)]:
         c = Case(); c.ident = f"k{k}"; c.types = 'on'; c.method = 'm_on'; c.guard = None
         c.alts = [[('P', firsts[a1]), ('P', seconds[b1])], [('P', firsts[a2]), ('P', seconds[b2])]]
+        cases.append(c); k += 1
+    # alternatives that differ only in the path prefix of a constant / in non-literal range bounds
+    W_ = Pat('_', 'w')
+    for alts in ([[('P', Pat('&ka::A', 'l0')), ('P', W_)], [('P', Pat('&kb::A', 'l2')), ('P', W_)]],
+                 [[('P', Pat('&(ka::A..=ka::B)', 'r0-1')), ('P', W_)], [('P', Pat('&(kb::A..=kb::B)', 'r2-3')), ('P', W_)]],
+                 [[('P', W_), ('P', Pat('&kb::B', 'l3'))], [('P', W_), ('P', Pat('&ka::B', 'l1'))]],
+                 [[('P', Pat('&ka::A | &kb::A', 'o[l0,l2]')), ('P', Pat('&(ka::B..=kb::A)', 'r1-2'))]]):
+        c = Case(); c.ident = f"k{k}"; c.types = 'nn'; c.method = 'm_nn'; c.guard = None; c.alts = alts
         cases.append(c); k += 1
     for k2 in range(n):
         cases.append(gen_case(rng.fork(), f"g{k2}"))
